@@ -494,7 +494,30 @@ func (w *world) start(i int, base string, staging bool, initPeers []peer.ID) *no
 	}
 	n.rcfg = w.mkRaftCfg(filepath.Join(base, "raft"), initPeers)
 	n.store = simkit.NewRestoreCountingDS(dssync.MutexWrap(ds.NewMapDatastore()))
-	cons, err := raft.NewConsensus(n.host, n.rcfg, n.store, staging)
+	var cons *raft.Consensus
+	func() {
+		defer func() {
+			r := recover()
+			if r == nil {
+				return
+			}
+			// hashicorp/raft's NewRaft panics when the log it finds on disk has a hole
+			// after its newest snapshot. Seen only where Raft was beyond help already
+			// (snapshot-install loop, amnesiac voter: leaders whose own logs have holes
+			// install snapshots older than the follower's log): not judged there, and
+			// reported as a crash anywhere else. The plan ends here either way.
+			msg := fmt.Sprint(r)
+			if strings.Contains(msg, "log not found") && w.raftBroken() {
+				w.run.Probe("start_not_judged_raft_log_broken")
+			} else {
+				w.run.Violate("C17/crash", "panic at start: "+msg+";NewConsensus", "%s cannot be started on the Raft data it left in %s: NewConsensus panics: %s", n.who, filepath.Base(base), msg)
+			}
+			n.host.Close()
+			cancel()
+			panic(simkit.EndPlan{Why: n.who + " cannot be started: " + msg})
+		}()
+		cons, err = raft.NewConsensus(n.host, n.rcfg, n.store, staging)
+	}()
 	if err != nil {
 		panic(fmt.Sprintf("raft.NewConsensus: %v", err))
 	}
